@@ -28,7 +28,7 @@ var props = []PropSpec{
 		Assumptions: commonAssumptions,
 	},
 	{
-		ID: "C06", Pkg: "./gsfa", Scenario: "C06", Level: "exploration", Env: map[string]string{"VERIF_REAL_RULE": "1"},
+		ID: "C06", Pkg: "./gsfa", Scenario: "C06", Level: "exploration", Env: map[string]string{"VERIF_REAL_RULE": "1", "VERIF_REAL_SEARCH": "25"},
 		Quick:       Tier{Runs: 3000, WallS: 90, ShrinkS: 40},
 		Thorough:    Tier{Runs: 60000, WallS: 900, ShrinkS: 120},
 		Rule:        "one run = one push history (1..6 addresses, or enough distinct addresses to cross the periodic-flush population; a focus address with k*B+delta entries; duplicate keys; slots landing on the %500 trigger; pauses that let the flusher's 1 s timer fire) through the real GsfaWriter with its background flusher under one seeded schedule, Close, then GsfaReader.Get for every address compared with the reversed push model; thresholds shrunk per run through knobs (batch size, channel capacity, tmpBuf, flush population) or real (about 4% of runs, counts 1/999..1001/1999..2001/3000/5000, and directed batches whose record length is 126..129 and 16382..16385); distinct = distinct (history digest, schedule signature); non-trivial = at least one context switch",
